@@ -218,13 +218,16 @@ CHECKS["C03"] = {
 CHECKS["C05"] = {
     "level": "exploration",
     "engine": "enum",
-    "technique": "bounded-exhaustive enumeration of payload lengths x contents x paths x transports x MTU settings through the real server, with an exactly-once byte-identity oracle",
+    "technique": "bounded-exhaustive enumeration of payload lengths x contents x paths x transports x MTU settings through the real server, with an exactly-once byte-identity oracle; preemption-bounded schedule exploration of the two writers of a stream client's connection",
     "rule": "Engine C over the Engine-A harness: payload length (quick: every length 0..1800, 8960..9010, 32760..32776, 65480..65507; thorough: EVERY length 0..65507) x path in {Send indication -> peer, ChannelData -> peer, "
             "peer -> Data indication, peer -> ChannelData} x client transport in {UDP, stream} x content in {zeros, 0xFF, counter, magic-cookie-prefixed, ChannelData-header-prefixed, STUN-header-prefixed} x "
             "InboundMTU in {1600 default, 600, 9000}, plus an IPv6 listener / client / allocation / peers for every content and transport, back-to-back pairs for lengths <= 5, on the real turn.Server over simnet (UDP read buffers truncate like a kernel does); oracle per datagram: exactly one delivery whose "
             "payload is byte-identical, whose peer attribution (XOR-PEER-ADDRESS / channel number) is the true source and whose source toward the peer is the relayed address, or no delivery at all - and no delivery only for lengths within 100 bytes of, or beyond, the smaller of InboundMTU and the 1600-byte relay buffer; never a second copy, "
-            "never different bytes, nothing at any other endpoint. A class is (transport, MTU, content, path, length class) -> relayed | dropped.",
-    "parts": [A("relay", "./checks/c05", "TestC05", budget={"quick": 60, "thorough": 1500})],
+            "never different bytes, nothing at any other endpoint. One transient write error (ENOBUFS) is injected in each direction before a final mandatory 10-byte probe on every path; relayed ChannelData carries zero padding. "
+            "Part sched (Engine B): on a stream listener the relay loop (a ChannelData frame and a Data indication) and the connection's read loop (a Refresh response) write to one client connection in every interleaving up to the preemption bound: the client reads whole frames. "
+            "A class is (transport, MTU, content, path, length class) -> relayed | dropped.",
+    "parts": [A("relay", "./checks/c05", "TestC05", budget={"quick": 60, "thorough": 1500}),
+              A("sched", "./checks/bsem", "TestC05Sched", overlay=True, gomaxprocs=1, budget={"quick": 60, "thorough": 600})],
 }
 
 CHECKS["C09"] = {
